@@ -40,6 +40,10 @@ THEOREMS = [
     "BeyondVerif.CovHeap.write_other",
     "BeyondVerif.CovHeap.attach_other",
     "BeyondVerif.CovHeap.svHop_other",
+    "BeyondVerif.CovHeap.svHop_atomic",
+    "BeyondVerif.CovHeap.step_wf",
+    "BeyondVerif.CovHeap.step_other",
+    "BeyondVerif.CovHeap.step_allSep",
     "BeyondVerif.C14.heap_path_independent",
     "BeyondVerif.C14.heap_init",
     "BeyondVerif.C14.two_states_same_epoch",
@@ -62,7 +66,7 @@ LEVEL_TEXT = ("Lean theorems about a state-machine model of Cov (tag, _orb_frame
               "Several objects in one process: a heap model (Model/CovHeap.lean) of the cells Cov objects are made of - array memory, `_data` dict, private state copy, "
               "`_orb_frame` - with the cell sharing that Cov.__new__, Cov.copy, __array_finalize__ (k * c, a + b, views, copy.copy), pickling and sv.cov = c produce; no memo. "
               "Proved for every matrix type: an operation on one object leaves every object sharing neither memory nor dict unchanged (hop_other, write_other, attach_other, "
-              "svHop_other), new objects share nothing with old ones except a view its base's memory (newCov/copyCov/pickle/derive/mkView_spec), and an interleaved run looked at "
+              "svHop_other; step_other for every operation of the model, step_allSep: pairwise separation is invariant in a process that takes no numpy views), new objects share nothing with old ones except a view its base's memory (newCov/copyCov/pickle/derive/mkView_spec), and an interleaved run looked at "
               "through one object is the single-object run of the targets addressed to it (hops_project); over real matrices: each covariance ends as Mt C0 Mt^T for its OWN "
               "state, matrix and last target whatever happens to the others (heap_path_independent, two_states_same_epoch, derived_independent). The heap model runs against "
               "the real classes on random interleaved operation sequences over several states sharing date and frame.")
@@ -385,7 +389,7 @@ def correspondence(ctx):
     out = Outcome()
     rng = ctx.rng
     reqs, meta = [], []
-    for it in range(ctx.n(700, 12000)):
+    for it in range(ctx.n(500, 12000)):
         f0 = NONROT[it % len(NONROT)]
         if rng.random() < 0.05:
             f0 = rng.choice(["ITRF", "PEF", "TIRF"])     # outside the property's quantifier, inside the model's
@@ -813,7 +817,7 @@ def oracle(ctx, widened):
     from beyond.frames.frames import get_frame
     out = Outcome()
     rng = ctx.rng
-    N = 1500 if (widened or ctx.thorough) else 150
+    N = 1500 if (widened or ctx.thorough) else 120
     for it in range(N):
         f0 = NONROT[it % len(NONROT)] if it < 4 * len(NONROT) else rng.choice(NONROT)
         x = gen_state(rng)
@@ -947,25 +951,26 @@ MULTI_VIA = ["cov", "attached", "copy", "pickle", "from", "sv.copy"]
 
 
 def build_via(sv, c0, tag0, via):
-    """a full covariance object (one that has its `_orb_frame`) of state `sv`, obtained in one of the ways the API offers"""
+    """a full covariance object (one that has its `_orb_frame`) of state `sv`, obtained in one of the ways the API offers;
+    also returns the object it was made from when that is another object (it must never be touched by what is done to the result)"""
     import pickle
     import numpy as np
     from beyond.orbits.cov import Cov
     base = Cov(sv, np.array(c0, dtype=float), tagobj(tag0))
     if via == "cov":
-        return base
+        return base, None
     if via == "attached":
         sv.cov = base
-        return sv.cov
+        return sv.cov, None
     if via == "copy":
-        return base.copy()
+        return base.copy(), base
     if via == "pickle":
-        return pickle.loads(pickle.dumps(base))
+        return pickle.loads(pickle.dumps(base)), base
     if via == "from":
-        return Cov(sv, base, None)
+        return Cov(sv, base, None), base
     if via == "sv.copy":
         sv.cov = base
-        return sv.copy().cov
+        return sv.copy().cov, base
     raise ValueError(via)
 
 
@@ -1011,10 +1016,13 @@ def check_multi(out, scen):
     import numpy as np
     dates, states = scen["dates"], scen["states"]
     svs = [make_sv(x, dates[d], f0) for d, f0, x in states]
-    objs, homes = [], []
+    objs, homes, watch = [], [], []
     for o in scen["objects"]:
         d, f0, x = states[o["state"]]
-        objs.append(build_via(make_sv(x, dates[d], f0) if o["via"] in ("attached", "sv.copy") else svs[o["state"]], o["cov"], o["tag0"], o["via"]))
+        c, base = build_via(make_sv(x, dates[d], f0) if o["via"] in ("attached", "sv.copy") else svs[o["state"]], o["cov"], o["tag0"], o["via"])
+        objs.append(c)
+        if base is not None:
+            watch.append((len(objs) - 1, o["via"], base, tagname(base), np.array(base)))
         homes.append(home_matrix(o["tag0"], x, o["cov"]))
     rot = {}
 
@@ -1052,6 +1060,11 @@ def check_multi(out, scen):
             if j != i and (tagname(c) != before[j][0] or not np.array_equal(np.array(c), before[j][1])):
                 out.fail("multi-object:other-modified:" + fam, f"hop {n}: changing the frame of covariance {i} modified covariance {j}", scen,
                          observed={"tag": tagname(c), "matrix": np.array(c).tolist()}, expected={"tag": before[j][0], "matrix": before[j][1].tolist()})
+                return
+        for j, via, base, btag, bval in watch:
+            if tagname(base) != btag or not np.array_equal(np.array(base), bval):
+                out.fail("multi-object:origin-modified:" + via, f"hop {n}: changing the frame of covariance {i} modified the covariance object {j} was made from ({via})", scen,
+                         observed={"tag": tagname(base), "matrix": np.array(base).tolist()}, expected={"tag": btag, "matrix": bval.tolist()})
                 return
     for i, c in enumerate(objs):
         prev = tagname(c)
